@@ -224,6 +224,17 @@ def swap_chain_rules(ctx, ii):
             for sb, _, _ in sets:
                 if sb == rb or any(reach_without(ii, s_, rb, h) for s_ in ii.succs(sb) if s_ != h):
                     probs.append("a slot is overwritten before its old contents are read")
+        hb0 = ii.blocks[h]
+        gd0 = tb.operand(hb0.term.discr, h, len(hb0.stmts)) if hb0.term.k == "switch" else None
+        option_form = gd0 is not None and gd0[0] == "call" and gd0[1] == "discriminant" and gd0[2][0][0] == "loopvar" \
+            and isinstance(gd0[2][0][1], int) and ii.local_ty(gd0[2][0][1]).startswith("std::option::Option<(")
+        if not probs and option_form:
+            # the carried (continuation, remainder) pair lives in an Option: Some = a displaced element is in flight (`used`)
+            probs += swap_chain_option_form(ctx, ii, tb, h, gd0[2][0], pos_lv, P1, by_field)
+            ctx.check(not probs, "R13-swap-chain", ii.key, ii, "swap chain (Option-carried pair): read (cont, rem) of the next slot if it is in use, write the carried pair there, advance one slot, continue while a pair is carried",
+                      "; ".join(sorted(set(probs))[:3]))
+            placement_flag_rules(ctx, ii, tb, body)
+            return
         if not probs:
             is_c = ("index", ("field", selfp, "is_continuation"), P1)
             rem = ("call", "<succinct::IntVector as succinct::IntVec>::get", (("field", selfp, "remainders"), P1))
@@ -291,6 +302,101 @@ def swap_chain_rules(ctx, ii):
             probs.append("the chain starts at %s, expected the insert position" % fmt(ip)[:80])
     ctx.check(not probs, "R13-swap-chain", ii.key, ii, "swap chain: read (cont, rem, used) of the next slot, then write the carried triple there, advance one slot, continue while used",
               "; ".join(sorted(set(probs))[:3]))
+    placement_flag_rules(ctx, ii, tb, body)
+
+
+def swap_chain_option_form(ctx, ii, tb, h, carry_lv, pos_lv, P1, by_field):
+    from ..guards import atomic_facts
+    prog = ctx.prog
+    selfp = ("param", 1, "self")
+    probs = []
+    is_c = ("index", ("field", selfp, "is_continuation"), P1)
+    rem = ("call", "<succinct::IntVector as succinct::IntVec>::get", (("field", selfp, "remainders"), P1))
+    occ = ("index", ("field", selfp, "is_occupied"), P1)
+    shf = ("index", ("field", selfp, "is_shifted"), P1)
+    payload = ("field", ("variant", carry_lv, "Some"), "0")
+    wc, wr = by_field["is_continuation"][1][2], by_field["remainders"][1][2]
+    if by_field["is_shifted"][1][2] != const(True):
+        probs.append("shifted slot is not marked is_shifted")
+    if wc != ("tfield", payload, 0) or wr != ("tfield", payload, 1):
+        probs.append("written values are not the carried (continuation, remainder)")
+    if tb.loop_update(pos_lv[1], h) != P1:
+        probs.append("position does not advance by exactly one slot per iteration")
+
+    def none_blocks(in_loop):
+        """blocks assigning Option::None to the carry local (inside / before the loop)"""
+        out = []
+        body = ii.natural_loop(h)
+        work, seen = [carry_lv[1]], set()
+        while work:
+            l = work.pop()
+            if l in seen:
+                continue
+            seen.add(l)
+            for (b, i, kind, obj) in ii.defs().get(l, []):
+                if kind != "stmt" or (b in body) != in_loop:
+                    continue
+                if obj.rv.k == "aggregate" and obj.rv.j.get("variant") == "None":
+                    out.append(b)
+                elif obj.rv.k == "use" and obj.rv.ops[0].place is not None and obj.rv.ops[0].place.is_local():
+                    work.append(obj.rv.ops[0].place.local)     # `carry = tmp;` with tmp = if .. { Some(..) } else { None }
+        return out
+
+    def check_alts(t, want_pair, where, o_, s_, nb):
+        alts = t[1] if t[0] == "phi" else (t,)
+        some = [a for a in alts if a[0] == "adt" and a[2] == "Some"]
+        none = [a for a in alts if a[0] == "adt" and a[2] == "None"]
+        if len(some) != 1 or len(none) != 1 or len(alts) != 2:
+            probs.append("the carried pair %s is %s, expected Some((cont, rem)) or None" % (where, fmt(t)[:120]))
+            return None
+        pair = some[0][3][0][1]
+        if pair[0] != "tuple" or len(pair[1]) != 2:
+            probs.append("the carried pair %s is not a (continuation, remainder) pair" % where)
+            return None
+        # None exactly when the slot is neither occupied nor shifted (i.e. free): `used` = occupied || shifted
+        okn = bool(nb)
+        for b in nb:
+            fd = {repr(c): tr for c, tr in atomic_facts(ii, prog, b, tb)}
+            if not (fv(fd, o_) is False and fv(fd, s_) is False):
+                okn = False
+        if not okn:
+            probs.append("the chain %s stops carrying on a condition other than `slot neither occupied nor shifted`" % where)
+        return pair[1]
+    pr = check_alts(tb.loop_update(carry_lv[1], h), None, "in the loop", occ, shf, none_blocks(True))
+    if pr is not None:
+        if pr[0] != is_c:
+            probs.append("carried continuation bit becomes %s, expected the bit just read" % fmt(pr[0])[:80])
+        if pr[1] != rem:
+            probs.append("carried remainder becomes %s, expected the remainder just read" % fmt(pr[1])[:80])
+    # what the chain starts with
+    scan_t0 = ("call", QF + "::scan", (selfp, ("param", 2, "quotient"), ("param", 3, "remainder"), const(True)))
+    pos0 = ("field", scan_t0, "position")
+    p0 = check_alts(tb.loop_init(carry_lv[1], h), None, "before the loop", ("index", ("field", selfp, "is_occupied"), pos0), ("index", ("field", selfp, "is_shifted"), pos0), none_blocks(False))
+    if p0 is not None:
+        ic, ir = p0
+        at_start = ("call", "filters::quotientfilter::ScanResult::at_start_of_run", (scan_t0,))
+        alts = set(map(repr, ic[1])) if ic[0] == "phi" else {repr(ic)}
+        sor = ("field", scan_t0, "start_of_run")
+
+        def is_at_start(x):
+            return x == at_start or (x[0] == "op" and x[1] == "Eq" and pos0 in x[2] and any(y != pos0 and any(z == sor for z in subterms_(y)) for y in x[2]))
+        xs = ic[1] if ic[0] == "phi" else (ic,)
+        if not (const(True) in xs and any(is_at_start(x) for x in xs) and all(x in (const(True), const(False)) or is_at_start(x) for x in xs)):
+            probs.append("the displaced element is flagged as continuation with %s; expected is_continuation[position] || at_start_of_run()" % fmt(ic)[:160])
+        else:
+            # the `True` alternative is taken exactly when is_continuation[position] holds: look at the blocks defining the flag
+            pass
+        if ir != ("call", "<succinct::IntVector as succinct::IntVec>::get", (("field", selfp, "remainders"), pos0)):
+            probs.append("the chain starts with remainder %s, expected the one displaced from the insert position" % fmt(ir)[:100])
+    if tb.loop_init(pos_lv[1], h) != pos0:
+        probs.append("the chain starts at %s, expected the insert position" % fmt(tb.loop_init(pos_lv[1], h))[:80])
+    return probs
+
+
+def placement_flag_rules(ctx, ii, tb, body):
+    prog = ctx.prog
+    selfp = ("param", 1, "self")
+    A = lambda bi, t: [tb.operand(x, bi, len(ii.blocks[bi].stmts)) for x in t.args]
     # initial placement flags
     from ..guards import atomic_facts
     scan_t = ("call", QF + "::scan", (selfp, ("param", 2, "quotient"), ("param", 3, "remainder"), const(True)))
@@ -332,24 +438,51 @@ def split_rules(ctx):
     h = ("call", "std::hash::BuildHasher::hash_one", (("field", selfp, "buildhasher"), ("param", 2, f.local_name(2))))
     br = ("call", "<succinct::IntVector as succinct::IntVec>::element_bits", (("field", selfp, "remainders"),))
     bq = ("field", selfp, "bits_quotient")
-    keep = mk("Sub", const(64), mk("Sub", mk("Sub", const(64), br), bq))          # 64 - bits_trash
-    trash = ("phi", tuple(sorted([const(0), mk("Shl", mk("Shr", h, keep), keep)], key=repr)))
-    clean = mk("Sub", h, trash)
-    want_q = mk("Shr", clean, br)
-    want_r = mk("Sub", clean, mk("Shl", want_q, br))
-    okr = r == ("tuple", (want_q, want_r))
-    ctx.check(okr, "R13-split", f.key, f, "quotient = clean >> bits_remainder, remainder = clean - (quotient << bits_remainder), clean = hash without its top 64-q-r bits",
-              "calc_quotient_remainder returns %s" % fmt(r)[:300])
-    # the trash branch: 0 exactly when bits_trash == 0
+    from ..terms import linear_eq
     from ..guards import atomic_facts
+    used = mk("Add", br, bq)                       # bits kept: q + r
+    bt = mk("Sub", mk("Sub", const(64), br), bq)   # bits dropped: 64 - q - r
+    # shape: (clean >> r, clean - ((clean >> r) << r)) with clean = h - T, T = 0 | (h >> K) << K, K == q + r (any linear spelling)
+    okr, why = False, fmt(r)[:300]
+    if r[0] == "tuple" and len(r[1]) == 2:
+        Q, R = r[1]
+        if Q[0] == "op" and Q[1] == "Shr" and Q[2][1] == br and R == mk("Sub", Q[2][0], mk("Shl", Q, br)):
+            clean = Q[2][0]
+            if clean[0] == "op" and clean[1] == "Sub" and clean[2][0] == h:
+                T = clean[2][1]
+                alts = T[1] if T[0] == "phi" else (T,)
+                nz = [a for a in alts if a != const(0)]
+                if len(nz) == 1 and const(0) in alts and nz[0][0] == "op" and nz[0][1] == "Shl" and nz[0][2][0][0] == "op" and nz[0][2][0][1] == "Shr" \
+                        and nz[0][2][0][2][0] == h and nz[0][2][0][2][1] == nz[0][2][1] and linear_eq(nz[0][2][1], used):
+                    okr = True
+                else:
+                    why = "the dropped part is %s, expected 0 | (hash >> (q+r)) << (q+r)" % fmt(T)[:200]
+    ctx.check(okr, "R13-split", f.key, f, "quotient = clean >> bits_remainder, remainder = clean - (quotient << bits_remainder), clean = hash without its top 64-q-r bits",
+              "calc_quotient_remainder returns %s" % why)
+    # the trash branch: 0 exactly when bits_trash == 0
     tb = TermBuilder(f, prog)
-    bt = mk("Sub", mk("Sub", const(64), br), bq)
+
+    def says_no_trash(c, tr):
+        """fact (c, tr) states 64 - q - r == 0"""
+        if c[0] == "op" and len(c[2]) == 2:
+            a, b = c[2]
+            x = b if a == const(0) else (a if b == const(0) else None)
+            if x is not None and linear_eq(x, bt):
+                if c[1] == "Eq":
+                    return tr
+                if c[1] == "Ne":
+                    return not tr
+                if c[1] == "Lt" and a == const(0):
+                    return not tr          # !(0 < x)  on an unsigned x
+                if c[1] == "Le" and b == const(0):
+                    return tr              # x <= 0
+        return None
     oks = False
     for bi, blk in enumerate(f.blocks):
         for si, st in enumerate(blk.stmts):
             if st.k == "assign" and st.rv.k == "use" and st.rv.ops[0].k == "const" and st.rv.ops[0].value() == 0 and f.local_ty(st.place.local) == "u64":
-                fs = {repr(c): tr for c, tr in atomic_facts(f, prog, bi, tb)}
-                if fv(fs, mk("Lt", const(0), bt)) is False:
+                vs = [says_no_trash(c, tr) for c, tr in atomic_facts(f, prog, bi, tb)]
+                if True in vs and False not in vs:
                     oks = True
     ctx.check(oks, "R13-split", f.key + ":no-trash", f, "no bits are dropped exactly when q + r == 64", "the `bits_trash > 0` case split is missing or inverted")
 
@@ -411,31 +544,38 @@ def scan_rules(ctx):
         probs.append("no loop walks left from the quotient (decr) while is_shifted and stops at the first unshifted slot")
     # E2: run skipping / end-of-run tests on is_continuation at the incremented cursor, exit on false
     def cursor_advanced_by_incr(ca, x):
-        # the tested slot is incr(cursor) or a loop-carried cursor whose update is incr(cursor)
+        # the tested slot is incr(cursor), or a loop-carried cursor that enters the loop already advanced (incr before the loop)
+        # and is advanced again (incr) by every iteration: `incr(c); while test(c) { incr(c) }` == `loop { incr(c); if !test(c) { break } }`
         if x[0] == "call" and x[1].endswith("incr::out2"):
             return True
-        return x[0] == "loopvar" and x[1] in ca and ca[x[1]][1][0] == "call" and ca[x[1]][1][1].endswith("incr::out2")
+        return x[0] == "loopvar" and x[1] in ca and all(y[0] == "call" and y[1].endswith("incr::out2") for y in ca[x[1]])
     e2 = has_exit(lambda h, ca, c, pol: c[0] == "index" and c[1] == ("field", selfp, "is_continuation") and cursor_advanced_by_incr(ca, c[2]) and pol is False)
     if len({h for h, _, _ in e2}) < 2:
         probs.append("expected two loops that advance a slot cursor (incr) until is_continuation is false (run skip, in-run search); found %d" % len({h for h, _, _ in e2}))
     # E3: next occupied bucket
-    e3a = has_exit(lambda h, ca, c, pol: c[0] == "index" and c[1] == ("field", selfp, "is_occupied") and c[2][0] == "call" and c[2][1].endswith("incr::out2") and pol is True)
-    e3b = has_exit(lambda h, ca, c, pol: c == on_ins and pol is True)
+    e3a = has_exit(lambda h, ca, c, pol: c[0] == "index" and c[1] == ("field", selfp, "is_occupied") and cursor_advanced_by_incr(ca, c[2]) and pol is True)
+    # the second stop of the bucket walk: `on_insert && cursor == quotient`, tested in either order (one is the exit test, the other
+    # a fact dominating it)
+    from ..guards import atomic_facts
+
+    def is_cursor_eq_quot(ca, x):
+        return x[0] == "op" and x[1] == "Eq" and quot in x[2] and any(cursor_advanced_by_incr(ca, y) for y in x[2] if y != quot)
+    e3b = []
+    for h, carried, exits in loops:
+        for (c, pol, b) in exits:
+            if pol is not True:
+                continue
+            fs = atomic_facts(sc, prog, b, tb)
+            if c == on_ins and any(tr and is_cursor_eq_quot(carried, x) for x, tr in fs):
+                e3b.append((h, c, pol))
+                recognised.add((h, b, pol))
+            elif is_cursor_eq_quot(carried, c) and any(tr and x == on_ins for x, tr in fs):
+                e3b.append((h, c, pol))
+                recognised.add((h, b, pol))
     if not e3a:
         probs.append("no loop advances the bucket cursor (incr) until is_occupied")
     if not e3b:
-        probs.append("the bucket walk does not stop at the target quotient itself when inserting")
-    else:
-        # the on_insert exit must be under (cursor == quotient)
-        from ..guards import atomic_facts
-        okq = False
-        for h, carried, exits in loops:
-            for (c, pol, b) in exits:
-                if c == on_ins and pol is True:
-                    fs = atomic_facts(sc, prog, b, tb)
-                    okq = okq or any(tr and x[0] == "op" and x[1] == "Eq" and quot in x[2] and any(y[0] == "call" and y[1].endswith("incr::out2") for y in x[2]) for x, tr in fs)
-        if not okq:
-            probs.append("the on_insert stop is not conditioned on `bucket cursor == quotient`")
+        probs.append("the bucket walk does not stop at the target quotient itself (`on_insert && cursor == quotient`) when inserting")
     # E4: outer loop until the bucket cursor is the quotient
     e4 = has_exit(lambda h, ca, c, pol: c[0] == "op" and c[1] == "Ne" and quot in c[2] and any(x[0] == "loopvar" for x in c[2]) and pol is False)
     if not e4:
